@@ -27,6 +27,10 @@ class StructVal:
     def size(self) -> int:
         return _struct.calcsize(self.fmt)
 
+    @property
+    def format(self) -> str:
+        return self.fmt
+
 
 @dataclass(frozen=True)
 class PackerVal:
@@ -37,6 +41,10 @@ class PackerVal:
     @property
     def size(self) -> int:
         return self.width // 8
+
+    @property
+    def format(self) -> str:
+        return self.fmt
 
     @property
     def fmt(self) -> str:
